@@ -74,6 +74,9 @@ var c14Hostile = []string{
 	`func maps() {m = {"a": 1.0, 2: [3]}; m.b = 2; m[nil] = 0; m}`,
 	`func neg() {-(1.0) - -2}`,
 	`l40 = "0123456789012345678901234567890123456789"`,
+	// quoted code held by a global (one line per binding whatever the code looks like), and the length limit applied to functions too
+	`q1 = quote(if a {1} else {2}); q2 = quote(func(x) {y = x; y + 1}); q3 = [quote(for i = 3 {println(i)})]; q4 = quote(a + b)`,
+	`func longf(x) {"0123456789012345678901234567890123456789012345678901234567890123456789"}; shortv = 1`,
 	// named functions held inside containers while their name is bound to something else by now
 	`func fq(x) {x + 1}; zq = [fq, {"k": fq}]; fq = 3`,
 	`func fq2(x) {x + 1}; zq2 = {"k": fq2, "l": [fq2]}; func fq2(x) {x + 2}`,
@@ -82,6 +85,9 @@ var c14Hostile = []string{
 	`func j1(a, r) {max(a, 2); (x => x + r)(a)}; func j2(a, r) {if a > 0 {r = r + 1}; (x => x + r)(a)}; func j3(a) {[a][0]; (a + 1) * 2}; func j4(a, b) {a; -b}; func j5(a, b) {a; ^b}; func j6(a, b) {a; +b}`,
 	`func j7(a, b) {c = a; [b][0]}; func j8(a) {a; (a)}; func j9(a, b) {x = {"k": a}; {"z": b}.z}; func j10(a, b) {a; !b}; func j11(f, b) {f; (b)}; j12 = (a, b) => {len(a); (y => y * 2)(b)}; j13 = (a, b) => {a[0]; (b)}`,
 	`func j14(a, b) {for 2 {a = a + 1}; (z => z + a)(b)}; func j15(a, b) {x = (a); (b)}; func j16(a, b) {a++; ++b; [a, b]}; func j17(a, b) {a--; -b}; func j18(a, b) {a; ++b}; func j19(a) {if a > 1 {return}; (a)}; func j20(a, b) {m = {}; m.k = a; (b)}`,
+	// operators next to operators of the same character
+	`func k1(a, b) {[a - --b, a, b]}; func k2(a, b) {[a + ++b, a, b]}; func k3(a, b) {a - -b}; func k4(a, b) {a + +b}; func k5(a, b) {a - -(-b)}; func k6(a, b) {x = a--; x - -b}; func k7(a, b) {a < -b}; func k8(a, b) {a & ^b}; func k9(a, b) {!(!a) && !b}`,
+	`func k10(a, b) {a / (b / 2.0)}; func k11(a, b) {a - (b - 1)}; func k12(a, b) {(a = b) + 1}; func k13(a, b) {-(a + b) * 2}; func k14(a, b) {a ^ ^b}; func k15(a, b) {a % -b}; func k16(a, b) {a << -(-b)}; func k17(a, b) {[a++ + b, a]}; func k18(a, b) {[a-- - b, a]}`,
 	// globals only ever changed from inside functions (assigned, read then assigned, incremented, appended to)
 	`gc = 1; func zz_incgc() {gc = gc + 1}`,
 	`gp = 0; func zz_ppgp() {gp++; nil}`,
@@ -173,6 +179,20 @@ func (p c14) check(c *fw.Ctx, build []string, maxLen int) (kind, detail string, 
 	}
 	_ = os.Remove(".gr")
 	_ = os.Remove("st.gr")
+	// nothing longer than the limit is in the file (a function's value is its whole text)
+	if maxLen > 0 {
+		for _, line := range strings.Split(strings.TrimSuffix(file, "\n"), "\n") {
+			val := line
+			if !strings.HasPrefix(line, "func ") {
+				if i := strings.IndexByte(line, '='); i > 0 {
+					val = line[i+1:]
+				}
+			}
+			if len(val) > maxLen {
+				return "over-limit-saved", fmt.Sprintf("with a limit of %d a value of %d bytes was saved: %s", maxLen, len(val), clip(line)), n, file
+			}
+		}
+	}
 	// was anything left out (too long) or is any saved value a large container?
 	skipped := false
 	if maxLen > 0 {
